@@ -5,8 +5,8 @@ From RecordUpdate Require Import RecordUpdate.
 From Pipe Require Import Model.
 
 Definition f100 (x : nat) : nat := x + 100.
-Definition F_depth1 : pfacts := {| f_pending_recheck := false; f_default_depth := 1 |}.
-Definition F_depth1_repaired : pfacts := {| f_pending_recheck := true; f_default_depth := 1 |}.
+Definition F_depth1 : pfacts := {| f_pending_recheck := false; f_default_depth := 1; f_poll_next_replaces_waker := true |}.
+Definition F_depth1_repaired : pfacts := {| f_pending_recheck := true; f_default_depth := 1; f_poll_next_replaces_waker := true |}.
 
 (* run several greedy phases, each with its own priority list, each until nothing in the list is enabled *)
 Fixpoint phases (F : pfacts) (ps : list (list actor)) (s : state) : state * list actor :=
@@ -55,7 +55,7 @@ Proof. vm_compute. reflexivity. Qed.
 
 (* depth 0 (set_backpressure_depth(0), or a constant of 0) is degenerate: `pending.len() >= 0` always holds, every poll
    job parks itself at once and nothing is ever read; this is why C12.4 asks for depth >= 1 *)
-Definition F_depth0 : pfacts := {| f_pending_recheck := false; f_default_depth := 0 |}.
+Definition F_depth0 : pfacts := {| f_pending_recheck := false; f_default_depth := 0; f_poll_next_replaces_waker := true |}.
 Example depth0_never_reads :
   let '(s, tr) := phases F_depth0 [everyone] (init F_depth0 [1;2] false) in
   (s.(delivered), s.(taken), s.(cst), s.(bp), terminalb F_depth0 f100 s) = ([], [], CPend, Some 1, true).
@@ -136,4 +136,42 @@ Example labels_of_witness :
      end) (init facts_unrepaired [1] false) c16_witness
   = [Some LNone; Some LPollFn; Some LStream; Some LStream; Some LInput; Some LStream; Some LNone; Some LNone; Some LNone;
      Some LStream].
+Proof. vm_compute. reflexivity. Qed.
+
+(* ---------- 6. spurious polls and the stale waker (C12.2 refutation witness for a poll_next that does not replace) ---------- *)
+(* Mutant: poll_next stores the waker only `if core.notify.is_none()`.
+     AProd x6   poll job 0: ... input Pending, notify_stream_closed := waker 0, return true
+     ACPoll     a probe (now_or_never / select! style): Pending, throw-away waker 0 stored in `notify`
+     ACons      return Pending
+     ACProbe    the real poll, waker 1 - NOT stored (notify is Some): `notify` keeps the stale waker 0
+     ACons      return Pending: the consumer now sleeps on waker 1
+     AItem, AEnv x2   an item arrives; the input's waker is called; poll job 1 queued
+     AProd x11  job 1: takes the item, pushes f(1), takes `notify` = waker 0 and calls it (nobody listens), input Pending
+     AEnd, AEnv x2, AProd x8   the input ends; job 2 sets closed, `notify` is None, poll_fn := None
+   Terminal: the consumer sleeps on waker 1, which nobody holds; pending = [101], closed = true. *)
+Definition stale_waker_trace : list actor :=
+  replicate 6 AProd ++ [ACPoll; ACons; ACProbe; ACons; AItem; AEnv; AEnv] ++ replicate 11 AProd ++ [AEnd; AEnv; AEnv]
+  ++ replicate 8 AProd.
+Example stale_waker_consumer_sleeps :
+  match run facts_stale_waker f100 (init facts_stale_waker [1] true) stale_waker_trace with
+  | Some s => (s.(cst), s.(cwoken), cons_wake_inflight s, s.(pending), s.(closed), s.(delivered), s.(clatest),
+               terminalb facts_stale_waker f100 s)
+              = (CPend, false, false, [101], true, [], 1, true)
+  | None => False
+  end.
+Proof. vm_compute. reflexivity. Qed.
+(* the code as it is (the waker is replaced): the same schedule wakes waker 1, the consumer is pollable, not terminal *)
+Example stale_waker_trace_with_replace :
+  match run facts_repaired f100 (init facts_repaired [1] true) stale_waker_trace with
+  | Some s => (s.(cst), s.(cwoken), s.(pending), terminalb facts_repaired f100 s) = (CPend, true, [101], false)
+  | None => False
+  end.
+Proof. vm_compute. reflexivity. Qed.
+(* a spurious poll while waiting may also find an item: the in-flight wake of the older waker is then a no-op *)
+Example probe_finds_item :
+  match run facts_repaired f100 (init facts_repaired [1;2] true)
+          (replicate 6 AProd ++ [ACPoll; ACons; AItem; AEnv; AEnv] ++ replicate 7 AProd ++ [ACProbe; ACons; ACPoll; ACons; AProd]) with
+  | Some s => (s.(cst), s.(delivered), s.(notify), s.(clatest), s.(cwoken), s.(running)) = (CPend, [101], Some 1, 1, false, Some (1, JLoop))
+  | None => False
+  end.
 Proof. vm_compute. reflexivity. Qed.
